@@ -18,6 +18,7 @@ class CounterChain(WorkChain):
         self.ctx.l = [self.inputs.start]
         self.ctx.n = 0
         self.ctx.d = {'k': []}
+        self.ctx.view = self.ctx.d['k']          # one list reachable by two paths: a snapshot must keep it one object
 
     def not_done(self):
         return self.ctx.n < self.LIMIT
